@@ -10,7 +10,7 @@ use std::collections::BTreeSet;
 fn cfg_b(freelists: &'static [(u32, u8)]) -> BoxedStrategy<Cfg> {
     let mut p = Profile::base();
     p.flavors = &[Fl::Sync];
-    p.backends = &[(1, Backend::Vec)];
+    p.backends = &[(6, Backend::Vec), (1, Backend::Anon), (2, Backend::File)];
     p.freelists = freelists;
     p.caps = &[(3, 200, 420), (2, 420, 1024)];
     p.reserved_max = 16;
@@ -115,7 +115,7 @@ pub fn case_b_strategy(tier: Tier, freelists: &'static [(u32, u8)], c12: bool) -
     });
     let progs = prop_oneof![
         8 => prop::collection::vec(prop::collection::vec(pop_strategy(c12), 1..=maxops), 2..=maxthreads),
-        2 => templ,
+        3 => templ,
         nested_w => nested,
     ];
     (cfg_b(freelists), prelude_strategy(), extra_pre, progs, schedule_strategy(schedlen), prop_oneof![2 => Just(0u8), 3 => 1u8..=40], spurious)
@@ -195,7 +195,7 @@ macro_rules! engb_prop {
     };
 }
 
-engb_prop!(C02, "C02", ALL_FL, false, false, 160_000, 3_000_000,
+engb_prop!(C02, "C02", ALL_FL, false, false, 400_000, 4_000_000,
     "Engine B: 2..3 (thorough 4) threads, each with its own clone of one sync::Arena and a generated program (alloc_bytes / alloc::<T> / alloc_aligned_bytes::<T> / drop / discard_freelist, allocations may be kept forever) run under a generated schedule (uniform choice bytes, bursty runs, or forced pre-emption of a thread right after its mark CAS) at the granularity of the arena's atomic accesses, from a free-list shape built by a generated pre-history (blocks, fill to exhaustion, free a subset); payloads include forged node words. Oracle: at every alloc return the range is inside the data area and disjoint from every live range of every thread; every arena write event (atomic or zeroing) must miss every live range; bytes verified before each release and at the end. Cases ending in a C07 stall are discarded here. Non-trivial = at least two threads operated on free-list nodes and at least one CAS failed (the threads interfered)",
     |r| r.freelist_threads >= 2 && r.cas_failures >= 1);
 
